@@ -175,7 +175,7 @@ func interpInput(r *mon.RNG) string {
 func c09EmitGenLexers(dir string) error {
 	env := append(os.Environ(), "GOFLAGS=-mod=mod", "GOPROXY=off", "GOSUMDB=off", "GOTOOLCHAIN=local")
 	tool := filepath.Join(dir, "participle-gen")
-	cmd := exec.Command("go", "build", "-o", tool, ".")
+	cmd := exec.Command("go", append(append([]string{"build"}, gram.CoverArgs("")...), "-o", tool, ".")...)
 	cmd.Dir = gram.RepoDir() + "/cmd/participle"
 	cmd.Env = env
 	if out, err := cmd.CombinedOutput(); err != nil {
